@@ -662,6 +662,7 @@ func perServerVerify(c *an.Ctx, parser *ssa.Function, gcaKey *an.Term) {
 	// the successful return happens only after the verification loop ran over all parsed entries:
 	// the loop ranges over the slice the parser returns
 	okLoop := false
+	nilReturns := 0
 	for _, b := range parser.Blocks {
 		if len(b.Instrs) == 0 {
 			continue
@@ -674,11 +675,12 @@ func perServerVerify(c *an.Ctx, parser *ssa.Function, gcaKey *an.Term) {
 			continue
 		}
 		servers := fi.Term(ret.Results[len(ret.Results)-2])
+		thisRet := false
 		for _, call := range calls {
 			// the entry verified is an element of the returned slice
 			dt := fi.Term(call.Call.Args[1])
 			if strings.Contains(dt.Key(), servers.Key()) {
-				okLoop = true
+				thisRet = true
 			}
 		}
 		// loop exit dominates the return: fact !(i < len(servers))
@@ -688,7 +690,13 @@ func perServerVerify(c *an.Ctx, parser *ssa.Function, gcaKey *an.Term) {
 				exit = true
 			}
 		}
-		okLoop = okLoop && exit
+		// every successful return (an early one for replies that carry a migration order included)
+		if nilReturns == 0 {
+			okLoop = thisRet && exit
+		} else {
+			okLoop = okLoop && thisRet && exit
+		}
+		nilReturns++
 	}
 	c.Check(okLoop, "AUTH", parser, parser.Pos(), an.KeyOf(parser, "all-entries-verified"), "the successful return is reached only after the verification loop has run over every element of the returned server list", "loop exit condition dominates the return")
 }
@@ -969,7 +977,11 @@ func bitOrder(c *an.Ctx) {
 				if vt.K == an.KBin && vt.S == "|" {
 					for _, f := range hfi.FactsAt(st) {
 						if !f.Neg && f.T.K == an.KBin && f.T.S == "<" && isConstTerm(f.T.A[0], "0") && strings.Contains(f.T.A[1].Key(), "PowerOutput") {
-							okCond = true
+							// compared as the unsigned quantity it is stored as (a negative reading, carried as a large
+							// unsigned value, is a held record too; int64(po) > 0 would leave its bit clear)
+							if bits, signed, isInt := intBits(f.T.A[1].Typ); !isInt || !signed || bits == 0 {
+								okCond = true
+							}
 						}
 						// for an unsigned value, != 0 is > 0
 						if !f.Neg && f.T.K == an.KBin && f.T.S == "!=" {
